@@ -1386,6 +1386,8 @@ package snaps
 // A formatter is a pure function; occFmt(f, s, i) is its value. The two formatters of this package:
 //@ axiom occFmt_snapshot: forall s Str, i Int {occFmt(fn.snaps.snapshotOccurrenceFMT, s, i)}: occFmt(fn.snaps.snapshotOccurrenceFMT, s, i) == s + " - " + itoa(i)
 //@ axiom occFmt_standalone: forall s Str, i Int {occFmt(fn.snaps.standaloneOccurrenceFMT, s, i)}: occFmt(fn.snaps.standaloneOccurrenceFMT, s, i) == sprintf_d(s, i)
+// occKey: x is the key of an occurrence 1..n of a registered test (n = its per-run count), or the key the code adds for n itself.
+//@ specfun occKey(d Array<Str,Bool>, v Array<Str,Int>, count Int, f Fn, x Str) Bool = exists id Str, k Int: d[id] && ((1 <= k && k <= v[id] / count) || k == v[id] / count) && x == occFmt(f, id, k)
 //@ func occurrences.formatter(s, i) returns (r)
 //@   nobody
 //@   assigns nothing
@@ -1398,15 +1400,19 @@ package snaps
 //@   ensures r != nil && fresh(r)
 //@   ensures [covers] forall id Str, k Int {occFmt(formatter, id, k)}: has(tests, id) && 1 <= k && k <= tests[id] / count ==> has(r, occFmt(formatter, id, k))
 //@   ensures [last] forall id Str {tests[id]}: has(tests, id) ==> has(r, occFmt(formatter, id, tests[id] / count))
+//@   ensures [exact] forall x Str {has(r, x)}: has(r, x) ==> occKey(dom(tests), vals(tests), count, formatter, x)
 //@   loop 1 invariant result != nil && !old(alloc)[result] && (tests != nil ==> old(alloc)[tests]) && count >= 1
 //@   loop 1 invariant forall r0 Ref: old(alloc)[r0] ==> domheap("map[string]int")[r0] == old(domheap("map[string]int"))[r0] && valheap("map[string]int")[r0] == old(valheap("map[string]int"))[r0] && domheap("map[string]struct{}")[r0] == old(domheap("map[string]struct{}"))[r0] && valheap("map[string]struct{}")[r0] == old(valheap("map[string]struct{}"))[r0]
 //@   loop 1 invariant forall id Str, k Int {occFmt(formatter, id, k)}: $visited[id] && 1 <= k && k <= tests[id] / count ==> has(result, occFmt(formatter, id, k))
 //@   loop 1 invariant forall id Str {tests[id]}: $visited[id] ==> has(result, occFmt(formatter, id, tests[id] / count))
+//@   loop 1 invariant forall x Str {has(result, x)}: has(result, x) ==> occKey(dom(tests), vals(tests), count, formatter, x)
 //@   loop 1.1 invariant result != nil && !old(alloc)[result] && (tests != nil ==> old(alloc)[tests]) && count >= 1 && 1 <= i && i <= counter + 1 && counter == tests[testID] / count
 //@   loop 1.1 invariant forall r0 Ref: old(alloc)[r0] ==> domheap("map[string]int")[r0] == old(domheap("map[string]int"))[r0] && valheap("map[string]int")[r0] == old(valheap("map[string]int"))[r0] && domheap("map[string]struct{}")[r0] == old(domheap("map[string]struct{}"))[r0] && valheap("map[string]struct{}")[r0] == old(valheap("map[string]struct{}"))[r0]
 //@   loop 1.1 invariant forall id Str, k Int {occFmt(formatter, id, k)}: $visited_1[id] && 1 <= k && k <= tests[id] / count ==> has(result, occFmt(formatter, id, k))
 //@   loop 1.1 invariant forall id Str {tests[id]}: $visited_1[id] ==> has(result, occFmt(formatter, id, tests[id] / count))
 //@   loop 1.1 invariant forall k Int {occFmt(formatter, testID, k)}: 1 <= k && k < i ==> has(result, occFmt(formatter, testID, k))
+//@   loop 1.1 invariant forall x Str {has(result, x)}: has(result, x) ==> occKey(dom(tests), vals(tests), count, formatter, x)
+//@   loop 1.1 invariant has(tests, testID)
 
 // ---- skip tracking (C08) -------------------------------------------------------------------------------
 //@ specfun desc(t Str, s Str) Bool = t == s || prefixof(s + "/", t)
